@@ -399,6 +399,9 @@ def check_formdata(ctx, rep):
 
 def run(ctx) -> Report:
     rep = Report("C01")
+    # the memo-key clause first: it needs no interpretation, and what it finds is reported even if a later clause cannot follow the code
+    from ..memokey import check_memo_keys, memo_rule  # noqa: F401
+    memo_rule(ctx, rep, "C01-key", [CFD, AIS, "ufl.algorithms.formdata", "ufl.algorithms.apply_coefficient_split"])
     check_scale(ctx, rep)
     n_apply = check_apply(ctx, rep)
     n_pipe = check_pipe(ctx, rep)
@@ -408,7 +411,6 @@ def run(ctx) -> Report:
     n_comp = compose(ctx, rep)
     from ..memokey import memo_rule
 
-    memo_rule(ctx, rep, "C01-key", [CFD, AIS, "ufl.algorithms.formdata", "ufl.algorithms.apply_coefficient_split"])
     rep.require_min("C01-scale", 50)
     rep.require_min("C01-apply", 20)
     rep.require_min("C01-pipe", 1)
